@@ -602,6 +602,115 @@ let lifel (rest : string) : string =
     | _ -> "sess=running" in
   Buffer.add_string buf ("# " ^ fin ^ " conn=open"); Buffer.contents buf
 
+(* ---------- txnm: the listener-side transactional resource (C18) ---------- *)
+let txnm (rest : string) : string =
+  let acts = Stdlib.List.map words (split_on rest ';') in
+  let is_decl a = (match a with ("decl" | "decl2") :: _ -> true | _ -> false) in
+  let total_decls = Stdlib.List.length (Stdlib.List.filter is_decl acts) in
+  (* decl action index -> the id the model answered with *)
+  let ids : (int * coq_N) list ref = ref [] in
+  let ndecl = ref 0 in
+  (* ids the model can never issue in this script: its counter stays below the number of declares *)
+  let resolve (r : string) : coq_N =
+    if r = "bogus" then n_of_int total_decls
+    else
+      let k = (try int_of_string (Stdlib.String.sub r 1 (Stdlib.String.length r - 1)) with _ -> failwith ("txnm: bad id " ^ r)) in
+      (match Stdlib.List.assoc_opt k !ids with Some id -> id | None -> n_of_int (total_decls + 1 + k)) in
+  let label (id : coq_N) : string =
+    match Stdlib.List.find_opt (fun (_, i) -> i = id) !ids with
+    | Some (k, _) -> "t" ^ string_of_int k
+    | None -> "x" ^ str_n id in
+  let ctl_of v = if Stdlib.String.length v > 0 && v.[Stdlib.String.length v - 1] = '2' then n_of_int 1 else N0 in
+  let ev (a : string list) : Manager.event =
+    match a with
+    | [("ctl" | "ctl2") as v] -> Manager.ECtlAttach (ctl_of v)
+    | [("dctl" | "dctl2") as v] -> Manager.ECtlDetach (ctl_of v)
+    | ["lnk"; i] -> Manager.ELinkAttach (n_of_string i)
+    | [("decl" | "decl2") as v] -> Manager.EDeclare (ctl_of v)
+    | ("post" | "postm") :: i :: tx :: m :: tl ->
+        let settled = (match tl with [] -> false | ["s"] -> true | _ -> failwith "txnm: bad post") in
+        Manager.EPost (n_of_string i, (if tx = "-" then None else Some (resolve tx)), settled, n_of_string m)
+    | [("commit" | "commitn" | "commit2") as v; tx] -> Manager.ECommit (ctl_of v, resolve tx)
+    | [("rollback" | "rollback2") as v; tx] -> Manager.ERollback (ctl_of v, resolve tx)
+    | ["dropsess"] -> Manager.ESessionEnd
+    | ["dropconn"] -> Manager.EConnLost
+    | _ -> failwith ("txnm: bad action " ^ Stdlib.String.concat " " a) in
+  let show (o : Manager.output list) : string =
+    let err = function Manager.UnknownId -> "UnknownId" | Manager.TxRollback -> "Rollback" | Manager.TxTimeout -> "Timeout" in
+    let ans = Stdlib.List.filter_map (function
+      | Manager.OAttached -> Some "att" | Manager.ODetached -> Some "detached"
+      | Manager.ODeclared id -> Some ("declared(" ^ label id ^ ")")
+      | Manager.OAccepted -> Some "accepted" | Manager.ORejected e -> Some ("rejected(" ^ err e ^ ")")
+      | Manager.OProvisional id -> Some ("prov(" ^ label id ^ ")")
+      | Manager.OSessionEnd None -> Some "end" | Manager.OSessionEnd (Some e) -> Some ("end(" ^ err e ^ ")")
+      | Manager.ODeliver (_, _) -> None) o in
+    let dels = Stdlib.List.filter_map (function Manager.ODeliver (l, m) -> Some (int_of_n l, int_of_n m) | _ -> None) o in
+    let lks = Stdlib.List.sort_uniq compare (Stdlib.List.map fst dels) in
+    let per = Stdlib.List.map (fun l ->
+      " l" ^ string_of_int l ^ ":" ^
+      Stdlib.String.concat "," (Stdlib.List.filter_map (fun (l', m) -> if l' = l then Some ("m" ^ string_of_int m) else None) dels)) lks in
+    (if ans = [] then "-" else Stdlib.String.concat "," ans) ^ Stdlib.String.concat "" per in
+  let (_, groups) = Stdlib.List.fold_left (fun (s, acc) a ->
+    let k = !ndecl in
+    if is_decl a then incr ndecl;
+    let e = ev a in
+    if not (Manager.enabled s e) then (s, "skip" :: acc)
+    else begin
+      let (s', o) = Manager.step s e in
+      Stdlib.List.iter (function Manager.ODeclared id -> ids := (k, id) :: !ids | _ -> ()) o;
+      (s', show o :: acc)
+    end) (Manager.init, []) acts in
+  Stdlib.String.concat " ; " (Stdlib.List.rev groups) ^ " # -"
+
+(* ---------- txcm: send() with drop points (C16) ----------
+   case: `| G<n> ; C<msg>:<pieces>:<ok|x> ; ... # <observed transfers>`.  The calls marked x were dropped (or timed
+   out) at an unknown await point: the model's drop points are searched, depth first, for an assignment under
+   which the model's wire equals the observed transfers (pruned as soon as the wire stops being a prefix of them).
+   Printed: the observed transfers when such an assignment exists, otherwise what the model writes when every x
+   call is dropped before taking its credit. *)
+let rec nat_of_int_ (i : int) : Datatypes.nat = if i <= 0 then Datatypes.O else Datatypes.S (nat_of_int_ (i - 1))
+let rec int_of_nat_ (n : Datatypes.nat) : int = match n with Datatypes.O -> 0 | Datatypes.S m -> 1 + int_of_nat_ m
+let txcm (rest : string) : string =
+  let (script, observed) = match Stdlib.String.index_opt rest '#' with
+    | Some i -> (Stdlib.String.sub rest 0 i, Stdlib.String.trim (Stdlib.String.sub rest (i + 1) (Stdlib.String.length rest - i - 1)))
+    | None -> (rest, "") in
+  let script = (match Stdlib.String.index_opt script '|' with
+    | Some i -> Stdlib.String.sub script (i + 1) (Stdlib.String.length script - i - 1) | None -> script) in
+  let evs = split_on script ';' in
+  let show (s : SendCancel.lstate) : string =
+    Stdlib.String.concat "," (Stdlib.List.map (fun (f : SendCancel.frame) ->
+      Printf.sprintf "t%s.i%d.m%s.g%s" (str_n f.SendCancel.f_tag) (int_of_nat_ f.SendCancel.f_idx) (str_b f.SendCancel.f_more) (str_n f.SendCancel.f_msg))
+      s.SendCancel.wire) in
+  let is_prefix a b = Stdlib.String.length a <= Stdlib.String.length b && Stdlib.String.sub b 0 (Stdlib.String.length a) = a in
+  let parse e = match Stdlib.String.get e 0 with
+    | 'G' -> `G (n_of_string (Stdlib.String.sub e 1 (Stdlib.String.length e - 1)))
+    | 'C' -> (match Stdlib.String.split_on_char ':' (Stdlib.String.sub e 1 (Stdlib.String.length e - 1)) with
+              | [m; p; k] -> `C (n_of_string m, int_of_string p, k = "ok")
+              | _ -> failwith ("txcm: bad call " ^ e))
+    | _ -> failwith ("txcm: bad event " ^ e) in
+  let evs = Stdlib.List.map parse evs in
+  let stepo s e = match SendCancel.step s e with Some s' -> s' | None -> s in
+  (* default: every x call dropped before its credit *)
+  let default = Stdlib.List.fold_left (fun s e -> match e with
+    | `G n -> stepo s (SendCancel.Grant n)
+    | `C (m, p, ok) -> stepo s (SendCancel.Call { SendCancel.c_msg = m; SendCancel.c_pieces = nat_of_int_ p;
+                                                   SendCancel.c_drop = (if ok then None else Some Datatypes.O) })) (SendCancel.init N0) evs in
+  let rec search s evs =
+    let w = show s in
+    if not (is_prefix w observed) then false
+    else match evs with
+      | [] -> w = observed
+      | `G n :: r -> search (stepo s (SendCancel.Grant n)) r
+      | `C (m, p, true) :: r ->
+          (match SendCancel.step s (SendCancel.Call { SendCancel.c_msg = m; SendCancel.c_pieces = nat_of_int_ p; SendCancel.c_drop = None }) with
+           | Some s' -> search s' r
+           | None -> false)   (* a call that completed cannot have been without credit *)
+      | `C (m, p, false) :: r ->
+          let rec try_k k = if k > p + 1 then false
+            else (search (stepo s (SendCancel.Call { SendCancel.c_msg = m; SendCancel.c_pieces = nat_of_int_ p; SendCancel.c_drop = Some (nat_of_int_ k) })) r) || try_k (k + 1) in
+          try_k 0 in
+  if search (SendCancel.init N0) evs then observed else show default
+
 let dispatch (line : string) : string =
   match Stdlib.String.index_opt line ' ' with
   | None -> failwith "no model tag"
@@ -617,6 +726,8 @@ let dispatch (line : string) : string =
        | "rx" -> rx rest
        | "lifem" -> lifem rest
        | "lifel" -> lifel rest
+       | "txcm" -> txcm rest
+       | "txnm" -> txnm rest
        | "saslm" -> saslm rest
        | "ssplit" -> ssplit rest
        | "lnk" -> c11_lnk rest
